@@ -23,6 +23,7 @@
 
 #include <tao/pegtl.hpp>
 #include <tao/pegtl/contrib/check_bytes.hpp>
+#include <tao/pegtl/contrib/coverage.hpp>
 #include <tao/pegtl/contrib/input_with_depth.hpp>
 #include <tao/pegtl/contrib/limit_bytes.hpp>
 #include <tao/pegtl/contrib/limit_depth.hpp>
@@ -1462,6 +1463,122 @@ namespace vt
       }
    }
 
+   // coverage (C08): pegtl::coverage< Rule, Action, Control >() with a tracing control underneath state_control<>; what it
+   // reports is logged and compared by the contract with the invocations it observed in the same run
+   inline void log_cov( const pegtl::coverage_result& result, int xcls )
+   {
+      Global& G = g();
+      Writer& w = G.tr;
+      auto id_of = [ & ]( std::string_view name ) {
+         const auto it = dn2id().find( std::string( name ) );
+         return ( it == dn2id().end() ) ? 0 : it->second;
+      };
+      w.s( "{\"k\":\"cov\"" );
+      w.kv( "x", xcls );
+      w.s( ",\"rules\":[" );
+      bool first = true;
+      for( const auto& [ name, e ] : result ) {
+         if( !first )
+            w.s( "," );
+         first = false;
+         w.s( "[" );
+         w.i( id_of( name ) );
+         for( const std::size_t v : { e.start, e.success, e.failure, e.unwind, e.raise } ) {
+            w.s( "," );
+            w.i( (long long)v );
+         }
+         w.s( "]" );
+      }
+      w.s( "],\"br\":[" );
+      first = true;
+      for( const auto& [ name, e ] : result ) {
+         for( const auto& [ bname, b ] : e.branches ) {
+            if( b.start == 0 && b.success == 0 && b.failure == 0 && b.unwind == 0 )
+               continue;   // branches never taken are not listed (the contract knows them as zero)
+            if( !first )
+               w.s( "," );
+            first = false;
+            w.s( "[" );
+            w.i( id_of( name ) );
+            w.s( "," );
+            w.i( id_of( bname ) );
+            for( const std::size_t v : { b.start, b.success, b.failure, b.unwind } ) {
+               w.s( "," );
+               w.i( (long long)v );
+            }
+            w.s( "]" );
+         }
+      }
+      w.s( "]}\n" );
+   }
+
+   template< typename Rule, template< typename... > class Action, template< typename... > class Control, pegtl::tracking_mode T, typename Eol >
+   void run_cov_case( CaseCfg c, const std::string& data )
+   {
+      describe< Rule >();
+      c.root = rid< Rule >();
+      c.A = 1;   // coverage() parses with the defaults: apply_mode::action, rewind_mode::optional
+      c.M = 0;
+      c.af = afam_of< Action >;
+      c.cf = Control< Rule >::vcfam;
+      c.trk = ( T == pegtl::tracking_mode::eager ) ? 0 : 1;
+      c.extra = 4;   // coverage run
+      char* blk = static_cast< char* >( std::malloc( data.size() ? data.size() : 1 ) );
+      std::memcpy( blk, data.data(), data.size() );
+      begin_case( c, blk, data.size() );
+      {
+         pegtl::memory_input< T, Eol, std::string > in( blk, blk + data.size(), "src" );
+         pegtl::coverage_result result;
+         try {
+            const bool res = pegtl::coverage< Rule, Action, Control >( in, result );
+            log_cov( result, 0 );
+            end_case_ok( res, in );
+         }
+         catch( ... ) {
+            const XInfo x = classify_current();
+            log_cov( result, x.cls );
+            end_case_exc( x, in );
+         }
+      }
+      std::free( blk );
+   }
+
+   // the input object for a case could not even be constructed (an exception from reading / mapping the file, ...): the case
+   // is logged as a run that ended with that exception before anything was consumed, so that it is compared like any other
+   template< typename Rule, template< typename... > class Action, template< typename... > class Control, pegtl::apply_mode A, pegtl::rewind_mode M >
+   void input_ctor_failed( CaseCfg c, int cls, int trk, const std::string& data )
+   {
+      const XInfo x = classify_current();
+      describe< Rule >();
+      c.root = rid< Rule >();
+      c.A = ( A == pegtl::apply_mode::action ) ? 1 : 0;
+      c.M = ( M == pegtl::rewind_mode::required ) ? 1 : 0;
+      c.af = afam_of< Action >;
+      c.cf = Control< Rule >::vcfam;
+      c.trk = trk;
+      c.cls = cls;
+      begin_case( c, data.data(), data.size() );
+      Global& G = g();
+      G.events = -( 1LL << 40 );
+      Writer& w = G.tr;
+      w.s( "{\"k\":\"end\"" );
+      w.kv( "v", 2 );
+      put_cur( w, Cur{ c.ib, c.il, c.ic, 0, (long long)data.size() } );
+      w.kv( "d", -1 );
+      w.kv( "x", x.cls );
+      w.kv( "nested", x.nested );
+      w.kv( "pb", x.pb );
+      w.kv( "pl", x.pl );
+      w.kv( "pc", x.pc );
+      w.str( "src", x.src );
+      w.str( "msg", x.msg );
+      w.str( "what", x.what );
+      w.kv( "acc", G.acc );
+      w.s( "}\n" );
+      w.maybe_flush();
+      G.in_case = false;
+   }
+
    // run one case on a slice: the logical end lies inside a larger buffer whose remaining bytes would extend a match
    template< typename Rule, template< typename... > class Action, template< typename... > class Control, pegtl::apply_mode A, pegtl::rewind_mode M, pegtl::tracking_mode T, typename Eol >
    void run_slice_case( CaseCfg c, const std::string& data, const std::string& filler )
@@ -1640,6 +1757,7 @@ namespace vt
    inline void finish()
    {
       Global& G = g();
+      G.tr.s( "{\"k\":\"fin\"}\n" );   // the run reached its regular end (a missing marker means the harness was cut short)
       G.tr.close();
       G.tb.close();
    }
